@@ -1,6 +1,5 @@
-/- line-protocol driver for C01: `drv_c01 <sub-command>` reads operations on stdin, prints one canonical line per operation.
+/- line-protocol driver for C01: `drv_c01 eval|seq|x86exec|ctype` (see Driver/C01Cmd.lean).
    Core Lean only (nothing imported here may import Mathlib, or the executable will not link). -/
+import ChibiVerif.Driver.C01Cmd
 
-def main (args : List String) : IO UInt32 := do
-  IO.eprintln s!"drv_c01: no sub-commands yet (args {args})"
-  return 2
+def main (args : List String) : IO UInt32 := ChibiVerif.Driver.C01.main args
